@@ -108,11 +108,16 @@ def run(tier, seed, replay=None):
     os.makedirs(work)
     errnos = ["ENOSPC", "EIO", "EDQUOT"]
 
-    def scenario(si):
+    # every scenario in the plain layout; the canonical ones also with ld.so.preload being a symbolic link to the real file
+    jobs = [(si, "plain") for si in range(len(chosen))] + [(si, "symlink") for si in range(len(chosen)) if chosen[si] in must or tier == "thorough"]
+
+    def scenario(job):
+        si, layout = job
         beh = chosen[si]
-        d = os.path.join(work, "s%d" % si)
+        d = os.path.join(work, "s%d-%s" % (si, layout))
         os.makedirs(d)
         path = os.path.join(d, "ld.so.preload")
+        target = os.path.join(d, "real.preload")
         env = {"SNOOPY_TEST_LD_SO_PRELOAD_PATH": path, "SNOOPY_TEST_LIBSNOOPY_SO_PATH": conc.own, "PATH": "/usr/bin:/bin"}
         old = conc.to_bytes(beh[0]["disk"])
         cmd = beh[1]["c"]
@@ -122,8 +127,10 @@ def run(tier, seed, replay=None):
                 if f != "dry.txt":
                     os.unlink(os.path.join(d, f))
             if old is not None:
-                with open(path, "wb") as f:
+                with open(target if layout == "symlink" else path, "wb") as f:
                     f.write(old)
+            if layout == "symlink":
+                os.symlink("real.preload", path)
         reset()
         dry = os.path.join(d, "dry.txt")
         rc = strace([b["snoopyctl"], cmd], env, out=dry)
@@ -174,11 +181,41 @@ def run(tier, seed, replay=None):
                                      sig="fault:%s:%s:%s" % (cmd, ev_name, en),
                                      what="%s with %s failing with %s at call #%d: file holds %r (old %r, new %r), exit %d"
                                           % (cmd, ev_name, en, i, disk, old, new, rc2)))
+        # short writes: the file system accepts only the first L bytes (RLIMIT_FSIZE = L with SIGXFSZ ignored, so write() returns a short count
+        # and then fails with EFBIG): a partly written file must never be installed
+        if new is not None and new != old:
+            cuts = sorted(set(range(0, len(new) + 1))) if (tier == "thorough" or len(new) <= 24) else sorted(set([0, 1, len(new) // 2, len(new) - 1, len(new)] + rnd.sample(range(len(new)), 6)))
+            for L in cuts:
+                reset()
+                def lim(L=L):
+                    import resource, signal
+                    signal.signal(signal.SIGXFSZ, signal.SIG_IGN)
+                    resource.setrlimit(resource.RLIMIT_FSIZE, (L, L))
+                try:
+                    rc3 = subprocess.run([b["snoopyctl"], cmd], env=env, capture_output=True, timeout=30, preexec_fn=lim).returncode
+                except subprocess.TimeoutExpired:
+                    rc3 = 998
+                disk = read_file(path)
+                bad = (disk or b"") not in (ok_old, ok_new) or (rc3 == 0 and (disk or b"") != ok_new)
+                runs.append(dict(kind="short", at=L, trace=None, disk=disk, bad=bad, exit=rc3, sig="short-write:%s:%s" % (cmd, "exit0" if rc3 == 0 else "failed"),
+                                 what="%s while the file system accepts only %d of %d bytes: exit %d, file holds %r (old %r, new %r)" % (cmd, L, len(new), rc3, disk, old, new)))
+        # a stale temporary left by an earlier killed run (longer than the new content) must not leak into the result
+        reset()
+        with open(path + ".tmp", "wb") as f:
+            f.write(b"/stale/from/an/earlier/run.so\n" * 40)
+        try:
+            rc4 = subprocess.run([b["snoopyctl"], cmd], env=env, capture_output=True, timeout=30).returncode
+        except subprocess.TimeoutExpired:
+            rc4 = 998
+        disk = read_file(path)
+        bad = (disk or b"") != ok_new or rc4 != rc
+        runs.append(dict(kind="stale-tmp", at=0, trace=None, disk=disk, bad=bad, exit=rc4, sig="stale-temporary:%s" % cmd,
+                         what="%s with a stale ld.so.preload.tmp of 1200 bytes present: exit %d (without it %d), file holds %r, expected %r" % (cmd, rc4, rc, disk, new)))
         shutil.rmtree(d, ignore_errors=True)
-        return dict(beh=beh, calls=len(calls), events=[e for _, e in evs], runs=runs)
+        return dict(beh=beh, layout=layout, calls=len(calls), events=[e for _, e in evs], runs=runs)
 
     with ThreadPoolExecutor(max_workers=c.NCPU) as ex:
-        results = list(ex.map(scenario, range(len(chosen))))
+        results = list(ex.map(scenario, jobs))
 
     # contract: old or new at every crash point / fault
     tracefile = os.path.join(b["root"], "systrace.ndjson")
@@ -190,13 +227,14 @@ def run(tier, seed, replay=None):
             for ri, ru in enumerate(res["runs"]):
                 nruns += 1
                 first = f.tell()
-                for rec in ru["trace"]:
+                for rec in (ru["trace"] or []):
                     f.write(json.dumps(rec) + "\n")
                     idx.append((si, ri))
                 if ru["kind"] != "dry" and res["beh"][1]["disk"] != res["beh"][0]["disk"]:
                     nontrivial.add((si, ru["kind"], ru["at"], ru.get("errno")))
                 if ru["bad"]:
-                    rep.violation(ru["sig"], ru["what"], dict(initial=res["beh"][0]["disk"], command=res["beh"][1]["c"],
+                    rep.violation(ru["sig"] + (":symlink" if res["layout"] == "symlink" else ""), ("[ld.so.preload is a symbolic link] " if res["layout"] == "symlink" else "") + ru["what"],
+                                  dict(initial=res["beh"][0]["disk"], command=res["beh"][1]["c"], layout=res["layout"],
                                                               injected=dict(kind=ru["kind"], call_index=ru["at"], call=ru.get("call"), errno=ru.get("errno")),
                                                               protocol_events=res["events"]))
     try:
@@ -222,7 +260,8 @@ def run(tier, seed, replay=None):
     rep.cov["evaluations"] = nruns
     rep.cov["distinct_nontrivial"] = len(nontrivial)
     rep.cov["rule"] = ("one evaluation = one strace'd snoopyctl run: a dry run, a SIGKILL on entry to system call k for every k, or "
-                       "ENOSPC/EIO/EDQUOT injected into each call that touches the preload file or its temporary; "
+                       "ENOSPC/EIO/EDQUOT injected into each call that touches the preload file or its temporary, a run under RLIMIT_FSIZE = L (short write) for cut positions L, "
+                       "or a run with a stale temporary present; layouts: regular file, and symbolic link to the real file; "
                        "non-trivial = the command really rewrites the file; distinct = (initial file, command, kill/fault point, errno)")
     rep.cov["scenarios"] = [dict(init=r_["beh"][0]["disk"], cmd=r_["beh"][1]["c"], syscalls=r_["calls"], protocol=r_["events"]) for r_ in results][:40]
     for r_ in results[:3]:
